@@ -1,5 +1,6 @@
 //! C17 harness, quick corpus: runs the cases read from stdin against the generated twins of
 //! `corpus_a.rs` (real `#[tracing::instrument]` expansion, real `tracing` span/event machinery).
+extern crate alloc; // `alloc::boxed::Box::pin` spellings of the corpus
 #[path = "../support.rs"]
 mod support;
 #[path = "../corpus_a.rs"]
